@@ -6,60 +6,117 @@ RD = "rbx_types::attributes::reader::"
 WR = "rbx_types::attributes::writer::"
 
 
-def run(c, prog):
-    R = "C14.empty"
-    c.rule(R, "writer: an empty map returns before the count is written; reader: zero bytes => empty map via read_option_u32, a partial length => error")
-    w = prog.fn(WR + "write_attributes")
+def facts(conds):
+    """atomic facts of a path condition list (conjunctions flattened)"""
+    out = []
+    stack = list(conds)
+    while stack:
+        x = stack.pop()
+        if isinstance(x, tuple) and x and x[0] == "and":
+            stack.extend(x[1])
+        else:
+            out.append(x)
+    return out
 
-    def is_w(n):
-        cal = core.callee_generic(n) or ""
-        nm = cal.rsplit("::", 1)[-1]
-        return nm if (nm.startswith("write_") or nm == "write_all") else None
-    sk = ioseq.skeleton(w.body, is_w)
-    first = sk[0] if sk else None
-    ok = False
-    if first and first[0] == "if":
-        cnd = core.strip(first[1])
-        if cnd.get("k") == "MethodCall" and cnd["m"] == "is_empty" and core.place_root(cnd["recv"])[0] == "map" and [x[0] for x in first[2]] == ["ret"] and not first[3]:
-            ok = True
-    if ok:
+
+def contains(t, sub):
+    if t == sub:
+        return True
+    if isinstance(t, tuple):
+        return any(contains(x, sub) for x in t)
+    return False
+
+
+def run(c, prog):
+    from sa import sym, wire
+    R = "C14.empty"
+    c.rule(R, "symbolic paths: writer — an empty map writes nothing and returns Ok; a non-empty map first writes `map.len() as u32` little-endian, then one entry per element of the same map.  reader — `no bytes at all` (read_option_u32 = Ok(None)) yields the empty map without reading anything more; a partial length is an error")
+    w = prog.fn(WR + "write_attributes")
+    env = {p["lid"]: ("in", p["name"]) for p in w.params}
+    mapt = ("in", w.params[0]["name"]) if "BTreeMap" in (w.params[0].get("ty") or "") else next((("in", p["name"]) for p in w.params if "BTreeMap" in (p.get("ty") or "")), None)
+    ok_empty = ok_count = False
+    why = ""
+    try:
+        I, val, ex = wire.run_region(prog, w.body, env, wire.BYTE_PRIMS, depth=8)
+        paths = sym.event_paths(I.events)
+        for conds, evs, x, v in paths:
+            fs = facts(conds)
+            emp = [f for f in fs if f[0] == "app" and f[1].endswith("::is_empty") and f[2] == (mapt,)]
+            nonemp = [f for f in fs if f[0] == "not" and f[1][0] == "app" and f[1][1].endswith("::is_empty") and f[1][2] == (mapt,)]
+            lenz = [f for f in fs if f[0] == "op" and f[1] == "==" and contains(f, ("len", ("iter", mapt))) and ("c", 0) in f]
+            if emp or lenz:
+                rv = v if x == "return" else sym.resolve(val, conds)
+                if not [e for e in evs if e[0] in ("W", "rep")] and sym.is_var(rv, sym.OK):
+                    ok_empty = True
+                else:
+                    why = "the empty-map path writes bytes or does not return Ok"
+            elif nonemp or not (emp or lenz):
+                ws = [e for e in evs if e[0] in ("W", "rep")]
+                if x == "err":
+                    continue
+                if len(ws) >= 2 and ws[0][0] == "W" and ws[1][0] == "rep":
+                    t = ws[0][2]
+                    good = t[0] == "app" and t[1].endswith("<impl u32>::to_le_bytes")
+                    a = t[2][0] if good else None
+                    while a is not None and a[0] == "cast":
+                        a = a[2]
+                    good = good and a == ("len", ("iter", mapt)) and sym.norm_dom(ws[1][1]) == sym.norm_dom(("iter", mapt))
+                    if good and len(ws) == 2:
+                        ok_count = True
+                    else:
+                        why = f"the non-empty path starts with {sym.term_str(t, 5)} followed by a loop over {sym.term_str(ws[1][1], 4)}" + ("" if len(ws) == 2 else " and further writes")
+                else:
+                    why = "the non-empty path does not start with a count followed by one loop over the map"
+    except (sym.Unsupported, core.AnalysisError) as e:
+        why = f"outside the symbolic model: {e}"
+    if ok_empty:
         c.ok(R, "writer:empty-returns-first")
     else:
-        c.violation(R, "writer|empty", "write_attributes no longer returns Ok(()) for an empty map before writing anything (an empty map must encode to zero bytes)", w.sp, instance="writer:empty-returns-first")
-    # count written = map.len() as u32 LE, then loop over the same map
-    calls = [x for x in sk if x[0] in ("call", "for")]
-    ok = len(calls) >= 2 and calls[0][0] == "call" and calls[0][1] == "write_all" and calls[1][0] == "for" and core.place_root(calls[1][2])[0] == "map"
-    if ok:
-        a = core.strip(calls[0][2]["args"][0])
-        fp = core.fingerprint(a, 6)
-        ok = "map.len()" in fp and "to_le_bytes" in fp and "u32" in fp
-    if ok and len(calls) == 2:
+        c.violation(R, "writer|empty", f"write_attributes no longer returns Ok(()) for an empty map before writing anything (an empty map must encode to zero bytes) {why}", w.sp, instance="writer:empty-returns-first")
+    if ok_count:
         c.ok(R, "writer:count-then-entries")
     else:
-        c.violation(R, "writer|count", "write_attributes does not write `map.len() as u32` little-endian followed by one entry per element of the same map", w.sp, instance="writer:count-then-entries")
+        c.violation(R, "writer|count", f"write_attributes does not write `map.len() as u32` little-endian followed by one entry per element of the same map ({why})", w.sp, instance="writer:count-then-entries")
+    # reader
     r = prog.fn(RD + "read_attributes")
-    m = None
-    for st in core.walk_lets(r.body):
-        if st["pat"].get("name") == "len" and "init" in st:
-            m = core.strip(st["init"])
+    env = {p["lid"]: ("in", p["name"]) for p in r.params}
     ok = False
-    if m and m.get("k") == "Match":
-        sc = core.strip(m["e"])
-        if sc.get("k") == "Call" and core.callee(sc) == RD + "read_option_u32":
-            rows = {}
-            for arm in m["arms"]:
-                rows[core.pat_str(arm["pat"])] = core.fingerprint(arm["body"], 4)
-            ok = rows.get("Result::Ok(Option::Some(len))") == "len" and rows.get("Result::Ok(Option::None)", "").startswith("Ret") or False
-            body_none = [arm for arm in m["arms"] if core.pat_str(arm["pat"]) == "Result::Ok(Option::None)"]
-            if body_none:
-                b = core.strip(body_none[0]["body"])
-                ok = rows.get("Result::Ok(Option::Some(len))") == "len" and b.get("k") == "Ret" and core.fingerprint(b["e"], 3).startswith("Result::Ok(attributes")
-            errarm = [arm for arm in m["arms"] if core.pat_str(arm["pat"]).startswith("Result::Err")]
-            ok = ok and bool(errarm) and core.strip(errarm[0]["body"]).get("k") == "Ret"
+    why = ""
+    try:
+        I, val, ex = wire.run_region(prog, r.body, env, wire.BYTE_PRIMS, depth=8, opaque={RD + "read_option_u32"})
+        paths = sym.event_paths(I.events)
+        A = None
+        none_ok = err_ok = some_ok = False
+        for conds, evs, x, v in paths:
+            fs = facts(conds)
+            is_none = any(f[0] == "is" and f[2] == sym.NONE and contains(f[1], RD + "read_option_u32") for f in fs)
+            is_err = any(f[0] == "is" and f[2] == sym.ERR and contains(f[1], RD + "read_option_u32") for f in fs)
+            is_some = any(f[0] == "is" and f[2] == sym.SOME and contains(f[1], RD + "read_option_u32") for f in fs)
+            rv = v if x == "return" else sym.resolve(val, conds)
+            if is_none:
+                if not [e for e in evs if e[0] in ("R", "rep")] and sym.is_var(rv, sym.OK) and rv[2] and rv[2][0][0] == "app" and rv[2][0][1].endswith("BTreeMap::<K, V>::new"):
+                    none_ok = True
+                else:
+                    why = "the `no bytes` path reads further or does not return an empty map"
+            elif is_err:
+                if x in ("return", "err") and not sym.is_var(rv, sym.OK):
+                    err_ok = True
+                else:
+                    why = "a failed length read does not end in an error"
+            elif is_some:
+                some_ok = True
+            # `read_option_u32(..)?`: the `?` operator propagates the failure (sa.sym keeps it as a ('try', call) term)
+            if any(f[0] == "is" and isinstance(f[1], tuple) and f[1][0] == "try" and contains(f[1], RD + "read_option_u32") for f in fs):
+                err_ok = True
+        ok = none_ok and err_ok and some_ok
+        if not why and not ok:
+            why = f"paths found: empty={none_ok}, error={err_ok}, entries={some_ok}"
+    except (sym.Unsupported, core.AnalysisError) as e:
+        why = f"outside the symbolic model: {e}"
     if ok:
         c.ok(R, "reader:zero-bytes-empty")
     else:
-        c.violation(R, "reader|empty", "read_attributes no longer maps `no bytes at all` to an empty map / a partial length to an error through read_option_u32", r.sp, instance="reader:zero-bytes-empty")
+        c.violation(R, "reader|empty", f"read_attributes no longer maps `no bytes at all` to an empty map / a partial length to an error through read_option_u32 ({why})", r.sp, instance="reader:zero-bytes-empty")
     # read_option_u32 uses read_exact_or_none and LE
     ro = prog.fn(RD + "read_option_u32")
     cals = [core.callee(n) for n in core.walk_fn(ro) if n.get("k") in ("Call", "MethodCall")]
